@@ -114,14 +114,21 @@ def finish(ctx: Ctx, level_text: str, seed: int = 0) -> int:
     known = load_known()
     obs = ctx.obligations
     undecided = [o for o in obs if o.status == UNDECIDED]
-    if undecided:
-        lines = "; ".join(f"{o.rule} {o.where()} [{o.construct}] {o.detail}" for o in undecided[:5])
-        raise AnalysisError(f"{len(undecided)} obligation(s) undecided (analysis cannot classify the construct): {lines}")
-    viols = [o for o in obs if o.status == VIOLATION]
+    viols, seen_keys = [], set()
+    for o in obs:
+        if o.status == VIOLATION and o.key(pid) not in seen_keys:
+            seen_keys.add(o.key(pid))
+            viols.append(o)
     known_hits, new = [], []
     for o in viols:
         e = next((e for e in known if _matches(e, pid, o)), None)
         (known_hits if e else new).append((o, e))
+    if undecided and not new:
+        # nothing definite to report and some instance could not be classified: fail closed, never a silent pass
+        lines = "; ".join(f"{o.rule} {o.where()} [{o.construct}] {o.detail}" for o in undecided[:5])
+        raise AnalysisError(f"{len(undecided)} obligation(s) undecided (analysis cannot classify the construct): {lines}")
+    for o in undecided:
+        print(f"  undecided: {o.rule} {o.where()} [{o.construct}] {o.detail}")
     by_rule: dict[str, dict[str, int]] = {}
     for o in obs:
         d = by_rule.setdefault(o.rule, {"obligations": 0, "discharged": 0, "violations": 0})
